@@ -1,4 +1,4 @@
-import HyperModel.Proofs.BlockExecInv
+import HyperModel.Proofs.BlockExecProgress
 /-!
 # C01 Parallel block execution is deterministic and equals sequential execution
 
@@ -144,6 +144,87 @@ theorem terminal_of_done (c : Ctx) (s : PState) (hr : Reachable c s)
   | stepAbort hr _ _ => exact hne _ _ hr (by intro h; cases h) (by intro h; cases h)
   | commit hr _ => exact hne _ _ hr (by intro h; cases h) (by intro h; cases h)
   | finish hr => exact hne _ _ hr (by intro h; cases h) (by intro h; cases h)
+
+/-- **progress (no deadlock)** every reachable state of the parallel processor that is not final
+(main loop through or stopped, every enqueued task done) has an enabled step: the main loop can
+consume/enqueue or stop; otherwise the least-index unfinished task — all earlier tasks, hence its
+earlier conflicting ones, are done — can start (or be skipped after an error), perform its next view
+operation, commit or finish. -/
+theorem progress (c : Ctx) (s : PState) (hr : Reachable c s) (hnf : ¬ Final c s) :
+    ∃ s', Step c s s' :=
+  progress_of_inv (inv_reachable hr) hnf
+
+/-- for reachable states, "no step is enabled" is exactly "executeTxs has returned" -/
+theorem terminal_iff_final (c : Ctx) (s : PState) (hr : Reachable c s) :
+    Terminal c s ↔ Final c s := by
+  constructor
+  · intro ht
+    apply Classical.byContradiction
+    intro hnf
+    exact ht (progress c s hr hnf)
+  · intro hf
+    exact terminal_of_done c s hr hf.1 hf.2
+
+/-- **termination** the measure `mu` (main-loop iterations left + per task: program steps left, +2
+for commit and finish, +1 for the start) strictly decreases along every step from a reachable state -/
+theorem measure_decreases (c : Ctx) (s s' : PState) (hr : Reachable c s) (hs : Step c s s') :
+    mu c s' < mu c s :=
+  step_decreases (inv_reachable hr) hs
+
+/-- hence there is no infinite run: every run is finite -/
+theorem terminates (c : Ctx) (f : Nat → PState) (h0 : Reachable c (f 0))
+    (h : ∀ n, Step c (f n) (f (n + 1))) : False :=
+  no_infinite_run c f h0 h
+
+/-- from every reachable state — in particular from the initial one, for every block — the run can
+be completed: a maximal run exists (non-vacuity of `Reachable ∧ Terminal` for *every* block) -/
+theorem maximal_run_exists (c : Ctx) (s : PState) (hr : Reachable c s) :
+    ∃ s', Steps c s s' ∧ Reachable c s' ∧ Terminal c s' := by
+  obtain ⟨s', h1, h2⟩ := reach_terminal c (mu c s) s (Nat.le_refl _) hr
+  exact ⟨s', h1, reachable_of_steps hr h1, h2⟩
+
+theorem terminal_reachable_exists (c : Ctx) : ∃ s, Reachable c s ∧ Terminal c s := by
+  obtain ⟨s, _, h1, h2⟩ := maximal_run_exists c _ Reachable.init
+  exact ⟨s, h1, h2⟩
+
+/-- **C01, no Terminal hypothesis** a run of the processor is a sequence of states from the initial
+one that takes a step whenever one is enabled (and stays put once none is). Every such run — every
+interleaving, any number of tasks in flight — reaches, after finitely many steps, a state in which
+`executeTxs` has returned, and what it returns there is what sequential execution returns. -/
+theorem every_maximal_run_eq_execSeq (c : Ctx) (f : Nat → PState) (h0 : f 0 = PState.init c)
+    (hrun : ∀ n, Step c (f n) (f (n + 1)) ∨ (Terminal c (f n) ∧ f (n + 1) = f n)) :
+    ∃ n, Final c (f n) ∧ (∀ m, n ≤ m → f m = f n) ∧
+      output c (f n) = (execSeq c).map (fun r => (r.1, r.2.1.map some, r.2.2)) := by
+  have hreach : ∀ n, Reachable c (f n) := by
+    intro n
+    induction n with
+    | zero => rw [h0]; exact Reachable.init
+    | succ n ih =>
+      rcases hrun n with h | ⟨_, h⟩
+      · exact Reachable.step ih h
+      · rw [h]; exact ih
+  have hex : ∃ n, Terminal c (f n) := by
+    apply Classical.byContradiction
+    intro hno
+    apply terminates c f (hreach 0)
+    intro n
+    rcases hrun n with h | ⟨ht, _⟩
+    · exact h
+    · exact absurd ⟨n, ht⟩ hno
+  obtain ⟨n, ht⟩ := hex
+  have hstay : ∀ k, f (n + k) = f n := by
+    intro k
+    induction k with
+    | zero => rfl
+    | succ k ih =>
+      rcases hrun (n + k) with h | ⟨_, h⟩
+      · rw [ih] at h; exact absurd ⟨_, h⟩ ht
+      · show f (n + k + 1) = f n
+        rw [h, ih]
+  refine ⟨n, (terminal_iff_final c _ (hreach n)).mp ht, ?_, exec_confluent c _ (hreach n) ht⟩
+  intro m hm
+  have := hstay (m - n)
+  rwa [show n + (m - n) = m by omega] at this
 
 def exTx (id : Nat) (keys : List (Key × Perm)) (acts : List (List Op)) : Tx :=
   { id := id, keys := (9, 5) :: keys, sponsor := 9, units := [2], preOk := true, actions := acts }
